@@ -918,6 +918,31 @@ func init() {
 								Input: fileInput(f, which, s), Got: fmt.Sprint(o.Pulled), Want: fmt.Sprintf("<= %d", f.End+65536)})
 						}
 					}
+					// the readers callers actually pass (what was consumed from them is visible from outside; a
+					// loader may look at their concrete type, length or seekability): the whole file, and the
+					// file cut at end_of_needed
+					if f.End >= 0 && f.End <= len(f.Data) {
+						for _, k := range concreteSources(w.ctx.out, len(f.Data) < 200000 && len(f.Name)%5 == 0) {
+							got, consumed := loadConsumed(which, k, f.Data)
+							w.res.count("concrete-source:"+which, k.name+f.Name, true)
+							if got != stripData(base) {
+								w.res.fail(Failure{Seq: w.seq, Class: "C18:" + f.Fmt + ":source-kind", Desc: fmt.Sprintf("loading %s from a %s differs from loading it from the instrumented reader (loader %s)", f.Name, k.name, which),
+									Input: map[string]interface{}{"file": shortHex(f.Data), "loader": which, "source": k.name}, Got: short(got, 160), Want: short(stripData(base), 160)})
+								break
+							}
+							if consumed > f.End+65536 {
+								w.res.fail(Failure{Seq: w.seq, Class: "C18:" + f.Fmt + ":readahead", Desc: fmt.Sprintf("loader %s consumed %d bytes of a %s, needed structures end at %d (%s)", which, consumed, k.name, f.End, f.Name),
+									Input: map[string]interface{}{"file": shortHex(f.Data), "loader": which, "source": k.name}, Got: fmt.Sprint(consumed), Want: fmt.Sprintf("<= %d", f.End+65536)})
+								break
+							}
+							gotT, _ := loadConsumed(which, k, f.Data[:f.End])
+							if gotT != stripData(base) {
+								w.res.fail(Failure{Seq: w.seq, Class: "C18:" + f.Fmt + ":truncated", Desc: fmt.Sprintf("loading %s cut at end_of_needed=%d from a %s differs from loading the whole file (loader %s)", f.Name, f.End, k.name, which),
+									Input: map[string]interface{}{"file": shortHex(f.Data[:f.End]), "loader": which, "source": k.name, "cut_at": f.End}, Got: short(gotT, 160), Want: short(stripData(base), 160)})
+								break
+							}
+						}
+					}
 					if f.End >= 0 && f.End <= len(f.Data) {
 						tr := w.loadBoth("meta_load", which, f.Data[:f.End], allAtOnce, false)
 						w.res.count("truncated:"+which, f.Name+which+"trunc", true)
@@ -1061,6 +1086,96 @@ func init() {
 			}
 		}
 	}
+}
+
+// ---- concrete source kinds whose consumption can be read off from outside ----
+type concreteSource struct {
+	name string
+	mk   func(data []byte) (io.Reader, func() int, func())
+}
+
+func concreteSources(dir string, withFile bool) []concreteSource {
+	ks := []concreteSource{
+		{"*bytes.Reader", func(d []byte) (io.Reader, func() int, func()) {
+			r := bytes.NewReader(d)
+			return r, func() int { return len(d) - r.Len() }, func() {}
+		}},
+		{"*strings.Reader", func(d []byte) (io.Reader, func() int, func()) {
+			r := strings.NewReader(string(d))
+			return r, func() int { return len(d) - r.Len() }, func() {}
+		}},
+		{"*bytes.Buffer", func(d []byte) (io.Reader, func() int, func()) {
+			r := bytes.NewBuffer(append([]byte{}, d...))
+			return r, func() int { return len(d) - r.Len() }, func() {}
+		}},
+	}
+	// a seekable source that counts what its Read calls hand out (seeking back does not un-read it): what a
+	// file on disk or on a network share is
+	ks = append(ks, concreteSource{"counting io.ReadSeeker", func(d []byte) (io.Reader, func() int, func()) {
+		r := &countingSeeker{r: bytes.NewReader(d)}
+		return r, func() int { return r.n }, func() {}
+	}}, concreteSource{"counting io.ReadSeeker+ReaderAt", func(d []byte) (io.Reader, func() int, func()) {
+		r := &countingSeekerAt{countingSeeker{r: bytes.NewReader(d)}}
+		return r, func() int { return r.n }, func() {}
+	}})
+	if withFile {
+		ks = append(ks, concreteSource{"*os.File", func(d []byte) (io.Reader, func() int, func()) {
+			f, err := os.CreateTemp(dir, "c18-src-*")
+			if err != nil {
+				r := bytes.NewReader(d)
+				return r, func() int { return len(d) - r.Len() }, func() {}
+			}
+			f.Write(d)
+			f.Seek(0, io.SeekStart)
+			return f, func() int { p, _ := f.Seek(0, io.SeekCurrent); return int(p) }, func() { f.Close(); os.Remove(f.Name()) }
+		}})
+	}
+	return ks
+}
+
+type countingSeeker struct {
+	r *bytes.Reader
+	n int
+}
+
+func (c *countingSeeker) Read(p []byte) (int, error) {
+	k, err := c.r.Read(p)
+	c.n += k
+	return k, err
+}
+func (c *countingSeeker) Seek(off int64, whence int) (int64, error) { return c.r.Seek(off, whence) }
+
+type countingSeekerAt struct{ countingSeeker }
+
+func (c *countingSeekerAt) ReadAt(p []byte, off int64) (int, error) {
+	k, err := c.r.ReadAt(p, off)
+	c.n += k
+	return k, err
+}
+
+// outcome without the replay part, and how much of the source had been consumed when Load returned
+func loadConsumed(which string, k concreteSource, data []byte) (out string, consumed int) {
+	r, used, done := k.mk(data)
+	defer done()
+	defer func() {
+		if p := recover(); p != nil {
+			out = "panic"
+		}
+	}()
+	md, _, err := loaders[which](r)
+	consumed = used()
+	if err != nil || md == nil {
+		return "err", consumed
+	}
+	return "ok " + mdString(md), consumed
+}
+
+// the metadata part of an outcome string ("ok <md> replay=..." -> "ok <md>")
+func stripData(o string) string {
+	if i := strings.Index(o, " replay="); i >= 0 {
+		return o[:i]
+	}
+	return o
 }
 
 // Results are values: what an earlier Load returned must read the same after any number of later Loads
